@@ -291,12 +291,30 @@ def _extract_integrate(fn):
     if len(args) != 4 or args[0] != "self":
         raise Unsupported(f"integrate: signature changed: {args}")
     keys, asserts, dispatch, stored, ret = [], [], None, None, None
+    coercion, first = None, True
     key_of = lambda n: tuple(ast.unparse(x) for x in n.elts) if isinstance(n, ast.Tuple) else None
     for st in fn.body:
         if isinstance(st, ast.Expr) and isinstance(st.value, ast.Constant) and isinstance(st.value.value, str):
             continue
         if ret is not None:
             raise Unsupported("integrate: code after return")
+        was_first, first = first, False
+        if isinstance(st, ast.Assign) and isinstance(st.targets[0], (ast.Tuple, ast.Name)) and len(st.targets) == 1 \
+                and "float(" in ast.unparse(st.value):
+            # the ONLY accepted form: `theta, a = float(theta), float(a)` as the first statement (repair of C10/D22: the cache
+            # key and the computation see Python floats).  float(x) is the identity on the real number x denotes (int, bool,
+            # numpy scalars of lower precision convert exactly), so the definitions over the reals are unchanged.
+            if not was_first:
+                raise Unsupported(f"integrate: argument coercion is not the first statement: {ast.unparse(st)[:80]}")
+            tg, val = st.targets[0], st.value
+            if not (isinstance(tg, ast.Tuple) and isinstance(val, ast.Tuple) and len(tg.elts) == len(val.elts) == 2
+                    and all(isinstance(c, ast.Call) and isinstance(c.func, ast.Name) and c.func.id == "float" and len(c.args) == 1
+                            and not c.keywords and isinstance(c.args[0], ast.Name) and isinstance(t, ast.Name)
+                            and c.args[0].id == t.id for t, c in zip(tg.elts, val.elts))
+                    and [t.id for t in tg.elts] == [args[2], args[3]]):
+                raise Unsupported(f"integrate: argument coercion has an unexpected form: {ast.unparse(st)[:80]}")
+            coercion = f"{args[2]}, {args[3]} = float({args[2]}), float({args[3]})"
+            continue
         if isinstance(st, ast.If) and isinstance(st.test, ast.Compare) and len(st.test.ops) == 1 \
                 and isinstance(st.test.ops[0], ast.In) and ast.unparse(st.test.comparators[0]) == "self._cache":
             k = key_of(st.test.left)
@@ -350,7 +368,7 @@ def _extract_integrate(fn):
     if asserts != expected:
         raise Unsupported(f"integrate: input validation changed: {asserts} (expected {expected})")
     return {"args": args[1:], "cache_key": keys[0] if keys else (), "cache_reads_and_writes": len(keys),
-            "asserts": asserts, "dispatch": dispatch, "line": fn.lineno}
+            "asserts": asserts, "dispatch": dispatch, "line": fn.lineno, "coercion": coercion}
 
 
 def _extract_init(fn):
@@ -486,6 +504,9 @@ def generate():
     A(f"`integrate` (line {integ['line']}): parameters {tuple(integ['args'])}; cache key {tuple(integ['cache_key'])} "
       f"(read and written {integ['cache_reads_and_writes']}x under the same tuple; `cached = uncached` is C10);")
     A(f"input validation {integ['asserts']}; dispatch `if self.use_lookup` -> {integ['dispatch']['then']} else {integ['dispatch']['else']}.")
+    if integ["coercion"]:
+        A(f"First statement `{integ['coercion']}`: the identity on the real numbers the arguments denote (it only fixes the Python "
+          "type seen by the cache key, C10).")
     A(f"`__init__`: {ex['init']}.")
     A(f"pulse.py: {ex['pulse_facts']}; `identity(x)` returns `x`; `get_parametrization` returns the stored callable.")
     A("`F` stands for `self.pulse_parametrization`.  `*_defined_*` is the conjunction of `denominator ≠ 0` over every division")
